@@ -19,8 +19,8 @@ pub struct Judge {
     pub store: bool,
     /// snapshot refresh must not exceed the model's bound
     pub refresh: bool,
-    /// repeat every online step's scenario this many times (engine shuffles manifest entries)
-    pub repeats: usize,
+    /// number of accepted / rejected publication points in the run metrics must equal the model's
+    pub points: bool,
 }
 
 /// Which (ca, version, object) an item belongs to, over all versions of all CAs.
@@ -67,7 +67,11 @@ pub fn judge(j: &Judge, sc: &Scenario, info: &mut CaseInfo, mut extra: impl FnMu
         world.publish(step);
         let prev = state.clone();
         let exp = model_step(sc, step, &mut state);
-        let out = match world.run(step.offline, &exceptions) {
+        let out = match world.run_with(step.offline, &exceptions, |c| {
+            if let Some(st) = step.stale {
+                c.stale = policy(st);
+            }
+        }) {
             Ok(out) => out,
             Err(e) => {
                 verdict = Verdict::fail(format!("{}/run-failed", id), format!("step {}: {}", n, e));
@@ -140,6 +144,13 @@ pub fn judge(j: &Judge, sc: &Scenario, info: &mut CaseInfo, mut extra: impl FnMu
                         break 'steps;
                     }
                 }
+            }
+        }
+        if j.points {
+            let p = &out.metrics.publication;
+            if p.valid_points as usize != exp.accepted.len() || p.rejected_points as usize != exp.rejected.len() {
+                verdict = Verdict::fail(format!("{}/point-counts", id), format!("step {}: engine accepted {} / rejected {} publication points, model accepted {:?} rejected {:?} skipped {:?}", n, p.valid_points, p.rejected_points, exp.accepted, exp.rejected, exp.skipped));
+                break;
             }
         }
         if j.refresh {
